@@ -49,7 +49,7 @@ PROPS = {
         'level_note': 'Known limits of the real code at the edges of well-formedness are recorded in known_findings.json (derived-name collisions, dynamic with zero events, concrete context without Default under dynamic). Ties: T2 all regions decl/sig, T4 pos, T3 builds.',
         'modules': ['SMV.Props.C14', 'SMV.Props.SideConditions', 'SMV.Props.C13Complete'],
         'regions': ['FE', 'MK', 'ST', 'IH', 'CT', 'SIG', 'SA', 'XA', 'SUB', 'EV', 'AS', 'DN', 'DF', 'ID', 'EX', 'DA', 'HD', 'CS'],
-        't4': ['pos', 'known'],
+        't4': ['pos', 'known', 'advpos'],
         'design_ref': 'DESIGN.md §7 C14',
     },
     'C17': {
@@ -58,7 +58,7 @@ PROPS = {
         'level_note': 'Ties: T2 all regions (any std/alloc path or changed derive list is a token mismatch), T4 pos nostd/typestate configurations.',
         'modules': ['SMV.Props.C17'],
         'regions': ['MK', 'ST', 'IH', 'CT', 'SIG', 'CN', 'SA', 'XA', 'SUB', 'EV', 'AS', 'DN', 'DF', 'ID', 'EX', 'DA', 'HD', 'CS', 'AB', 'GC', 'BC', 'AC', 'AA'],
-        't4': ['nostd'],
+        't4': ['nostd', 'advpos'],
         'design_ref': 'DESIGN.md §7 C17',
     },
     'C01': {
